@@ -518,7 +518,7 @@ impl E2Run for Sock {
     fn budget(&self, tier: &Tier) -> (u64, u64) {
         match tier {
             Tier::Quick => (40_000, 50),
-            Tier::Thorough => (3_000_000, 3000),
+            Tier::Thorough => (3_000_000, 1200),
         }
     }
 
